@@ -35,11 +35,14 @@ Local Open Scope N_scope.
 Record deviations := {
   d16_notify_del_return : bool;   (* D16 State.notify_del: `return` instead of `continue` when the entity/queue is already gone *)
   d90_dropped_dm_started : bool;  (* D90 new subsystem: a function dropped while its manager is not started yet is started anyway *)
-  d91_pending_subscribes : bool   (* D91 legacy: a trigger stopped before its task ran still runs its prologue, then is cancelled without unsubscribing *)
+  d91_pending_subscribes : bool;  (* D91 legacy: a trigger stopped before its task ran still runs its prologue, then is cancelled without unsubscribing *)
+  d21_handler_stays : bool        (* D21 a service shared by several live functions keeps the handler registered last, even when that function is removed *)
 }.
-Definition cfg_off : deviations := {| d16_notify_del_return := false; d90_dropped_dm_started := false; d91_pending_subscribes := false |}.
+Definition cfg_off : deviations :=
+  {| d16_notify_del_return := false; d90_dropped_dm_started := false; d91_pending_subscribes := false; d21_handler_stays := false |}.
 Definition all_off (c : deviations) : Prop :=
-  d16_notify_del_return c = false /\ d90_dropped_dm_started c = false /\ d91_pending_subscribes c = false.
+  d16_notify_del_return c = false /\ d90_dropped_dm_started c = false /\ d91_pending_subscribes c = false /\
+  d21_handler_stays c = false.
 
 (* ---------------------------------------------------------------------------------------------- *)
 (* small list helpers                                                                              *)
@@ -75,7 +78,7 @@ Record ledger := {
   l_bus   : list (N * N);   (* hass.bus listeners on script event types: (event type, owner); owner 0 = Event.event_listener *)
   l_tasks : list N;         (* live trigger tasks: legacy trigger_watch, new _cycle tasks *)
   l_reap  : list N;         (* tasks handed to Function.reaper_cancel, not yet cancelled *)
-  l_svc   : list N          (* registered @service's (one per generation) *)
+  l_svc   : list N          (* generations whose @service registration is counted in Function.service_cnt *)
 }.
 Definition ledger0 : ledger := {| l_state := []; l_event := []; l_bus := []; l_tasks := []; l_reap := []; l_svc := [] |}.
 Definition set_state L x := {| l_state := x; l_event := l_event L; l_bus := l_bus L; l_tasks := l_tasks L; l_reap := l_reap L; l_svc := l_svc L |}.
@@ -176,7 +179,11 @@ Definition dec_stop (cfg : deviations) (u : unit_) (L : ledger) : ledger * list 
 
 (* ---------------------------------------------------------------------------------------------- *)
 (* functions and the world                                                                         *)
-Record func := { f_gen : N; f_ctx : N; f_new : bool; f_units : list unit_; f_svc : bool }.
+Record func := {
+  f_gen : N; f_ctx : N; f_new : bool; f_units : list unit_;
+  f_svc : option N;      (* @service: the service name *)
+  f_pos : nat            (* new subsystem: how many trigger decorators are started before the @service decorator *)
+}.
 
 Record world := {
   w_led : ledger;
@@ -186,26 +193,63 @@ Record world := {
   w_pending : list N;      (* legacy unit ids whose task exists but has not run its prologue *)
   w_zombie : list N;       (* D91 only: stopped while pending, task still going to run its prologue *)
   w_running : list N;      (* started unit ids: legacy TrigInfo whose task ran its prologue, started new decorators *)
+  w_starting : list N;     (* new subsystem: generations whose DecoratorManager.start() is suspended inside
+                              ServiceDecorator.start (await State.get_service_params()) *)
+  w_hdl : list (N * N);    (* hass.services: service name -> generation whose handler was registered last *)
   w_auto : list N;         (* contexts with auto_start *)
   w_next : N;              (* next fresh id *)
   w_log : list run         (* every run of a function, oldest first *)
 }.
 Definition world0 : world :=
   {| w_led := ledger0; w_funcs := []; w_active := []; w_delayed := []; w_pending := []; w_zombie := []; w_running := [];
-     w_auto := []; w_next := 1; w_log := [] |}.
+     w_starting := []; w_hdl := []; w_auto := []; w_next := 1; w_log := [] |}.
 
-Definition set_led W L := {| w_led := L; w_funcs := w_funcs W; w_active := w_active W; w_delayed := w_delayed W; w_pending := w_pending W; w_zombie := w_zombie W; w_running := w_running W; w_auto := w_auto W; w_next := w_next W; w_log := w_log W |}.
-Definition led_log W (Lr : ledger * list run) := {| w_led := fst Lr; w_funcs := w_funcs W; w_active := w_active W; w_delayed := w_delayed W; w_pending := w_pending W; w_zombie := w_zombie W; w_running := w_running W; w_auto := w_auto W; w_next := w_next W; w_log := w_log W ++ snd Lr |}.
-Definition set_active W x := {| w_led := w_led W; w_funcs := w_funcs W; w_active := x; w_delayed := w_delayed W; w_pending := w_pending W; w_zombie := w_zombie W; w_running := w_running W; w_auto := w_auto W; w_next := w_next W; w_log := w_log W |}.
-Definition set_delayed W x := {| w_led := w_led W; w_funcs := w_funcs W; w_active := w_active W; w_delayed := x; w_pending := w_pending W; w_zombie := w_zombie W; w_running := w_running W; w_auto := w_auto W; w_next := w_next W; w_log := w_log W |}.
-Definition set_pending W x := {| w_led := w_led W; w_funcs := w_funcs W; w_active := w_active W; w_delayed := w_delayed W; w_pending := x; w_zombie := w_zombie W; w_running := w_running W; w_auto := w_auto W; w_next := w_next W; w_log := w_log W |}.
-Definition set_zombie W x := {| w_led := w_led W; w_funcs := w_funcs W; w_active := w_active W; w_delayed := w_delayed W; w_pending := w_pending W; w_zombie := x; w_running := w_running W; w_auto := w_auto W; w_next := w_next W; w_log := w_log W |}.
-Definition set_running W x := {| w_led := w_led W; w_funcs := w_funcs W; w_active := w_active W; w_delayed := w_delayed W; w_pending := w_pending W; w_zombie := w_zombie W; w_running := x; w_auto := w_auto W; w_next := w_next W; w_log := w_log W |}.
-Definition set_auto W x := {| w_led := w_led W; w_funcs := w_funcs W; w_active := w_active W; w_delayed := w_delayed W; w_pending := w_pending W; w_zombie := w_zombie W; w_running := w_running W; w_auto := x; w_next := w_next W; w_log := w_log W |}.
+Definition set_led W L := {| w_led := L; w_funcs := w_funcs W; w_active := w_active W; w_delayed := w_delayed W; w_pending := w_pending W; w_zombie := w_zombie W; w_running := w_running W; w_starting := w_starting W; w_hdl := w_hdl W; w_auto := w_auto W; w_next := w_next W; w_log := w_log W |}.
+Definition led_log W (Lr : ledger * list run) := {| w_led := fst Lr; w_funcs := w_funcs W; w_active := w_active W; w_delayed := w_delayed W; w_pending := w_pending W; w_zombie := w_zombie W; w_running := w_running W; w_starting := w_starting W; w_hdl := w_hdl W; w_auto := w_auto W; w_next := w_next W; w_log := w_log W ++ snd Lr |}.
+Definition set_active W x := {| w_led := w_led W; w_funcs := w_funcs W; w_active := x; w_delayed := w_delayed W; w_pending := w_pending W; w_zombie := w_zombie W; w_running := w_running W; w_starting := w_starting W; w_hdl := w_hdl W; w_auto := w_auto W; w_next := w_next W; w_log := w_log W |}.
+Definition set_delayed W x := {| w_led := w_led W; w_funcs := w_funcs W; w_active := w_active W; w_delayed := x; w_pending := w_pending W; w_zombie := w_zombie W; w_running := w_running W; w_starting := w_starting W; w_hdl := w_hdl W; w_auto := w_auto W; w_next := w_next W; w_log := w_log W |}.
+Definition set_pending W x := {| w_led := w_led W; w_funcs := w_funcs W; w_active := w_active W; w_delayed := w_delayed W; w_pending := x; w_zombie := w_zombie W; w_running := w_running W; w_starting := w_starting W; w_hdl := w_hdl W; w_auto := w_auto W; w_next := w_next W; w_log := w_log W |}.
+Definition set_zombie W x := {| w_led := w_led W; w_funcs := w_funcs W; w_active := w_active W; w_delayed := w_delayed W; w_pending := w_pending W; w_zombie := x; w_running := w_running W; w_starting := w_starting W; w_hdl := w_hdl W; w_auto := w_auto W; w_next := w_next W; w_log := w_log W |}.
+Definition set_running W x := {| w_led := w_led W; w_funcs := w_funcs W; w_active := w_active W; w_delayed := w_delayed W; w_pending := w_pending W; w_zombie := w_zombie W; w_running := x; w_starting := w_starting W; w_hdl := w_hdl W; w_auto := w_auto W; w_next := w_next W; w_log := w_log W |}.
+Definition set_starting W x := {| w_led := w_led W; w_funcs := w_funcs W; w_active := w_active W; w_delayed := w_delayed W; w_pending := w_pending W; w_zombie := w_zombie W; w_running := w_running W; w_starting := x; w_hdl := w_hdl W; w_auto := w_auto W; w_next := w_next W; w_log := w_log W |}.
+Definition set_hdl W x := {| w_led := w_led W; w_funcs := w_funcs W; w_active := w_active W; w_delayed := w_delayed W; w_pending := w_pending W; w_zombie := w_zombie W; w_running := w_running W; w_starting := w_starting W; w_hdl := x; w_auto := w_auto W; w_next := w_next W; w_log := w_log W |}.
+Definition set_auto W x := {| w_led := w_led W; w_funcs := w_funcs W; w_active := w_active W; w_delayed := w_delayed W; w_pending := w_pending W; w_zombie := w_zombie W; w_running := w_running W; w_starting := w_starting W; w_hdl := w_hdl W; w_auto := x; w_next := w_next W; w_log := w_log W |}.
 
 Definition all_units (W : world) : list unit_ := flat_map f_units (w_funcs W).
 Definition find_unit (W : world) (id : N) : option unit_ := find (fun u => N.eqb (u_id u) id) (all_units W).
 Definition find_func (W : world) (g : N) : option func := find (fun f => N.eqb (f_gen f) g) (w_funcs W).
+
+(* -- services: Function.service_register / service_remove ------------------------------------------ *)
+(* [l_svc] holds the generations whose registration is counted; Function.service_cnt[name] is the number of them
+   declaring that name, hass.services has the name while the count is positive, Function.service2global_ctx[name] is
+   the context of those generations (a registration from another context is refused with ValueError). *)
+Definition svc_name (W : world) (g : N) : option N := match find_func W g with Some f => f_svc f | None => None end.
+Definition ctx_of (W : world) (g : N) : N := match find_func W g with Some f => f_ctx f | None => 0 end.
+Definition has_name (W : world) (n : N) (g : N) : bool := match svc_name W g with Some m => N.eqb m n | None => false end.
+Definition svc_count (W : world) (n : N) : nat := length (filter (has_name W n) (l_svc (w_led W))).
+Definition svc_refused (W : world) (f : func) : bool :=
+  match f_svc f with
+  | Some n => existsb (fun g => has_name W n g && negb (N.eqb (ctx_of W g) (f_ctx f))) (l_svc (w_led W))
+  | None => false
+  end.
+Definition drop_name (n : N) (h : list (N * N)) : list (N * N) := filter (fun p => negb (N.eqb (fst p) n)) h.
+Definition svc_register (W : world) (f : func) : world :=
+  match f_svc f with
+  | Some n => set_hdl (set_led W (set_svc (w_led W) (addn (f_gen f) (l_svc (w_led W))))) ((n, f_gen f) :: drop_name n (w_hdl W))
+  | None => W
+  end.
+Definition svc_remove (W : world) (f : func) : world :=
+  match f_svc f with
+  | Some n => let W1 := set_led W (set_svc (w_led W) (deln (f_gen f) (l_svc (w_led W)))) in
+              if Nat.eqb (svc_count W1 n) 0 then set_hdl W1 (drop_name n (w_hdl W1)) else W1
+  | None => W
+  end.
+(* the function a call of service n reaches.  Today's code (D21): the handler registered last, even when that
+   function has been removed while an older one still holds the count; conformant: the newest remaining one *)
+Definition handler (cfg : deviations) (W : world) (n : N) : option N :=
+  if d21_handler_stays cfg then
+    match find (fun p => N.eqb (fst p) n) (w_hdl W) with Some p => Some (snd p) | None => None end
+  else match rev (filter (has_name W n) (l_svc (w_led W))) with g :: _ => Some g | [] => None end.
 
 (* -- legacy: start / stop of one function ------------------------------------------------------- *)
 (* EvalFunc.trigger_start: every TrigInfo gets its task *)
@@ -225,9 +269,8 @@ Definition leg_unit_stop (cfg : deviations) (W : world) (u : unit_) : world :=
 (* EvalFunc.trigger_stop (also reached from EvalFuncVar.__del__ and GlobalContext.stop) *)
 Definition leg_func_stop (cfg : deviations) (W : world) (f : func) : world :=
   if memn (f_gen f) (w_active W) then
-    let W1 := fold_left (leg_unit_stop cfg) (f_units f) W in
-    let W2 := if f_svc f then set_led W1 (set_svc (w_led W1) (deln (f_gen f) (l_svc (w_led W1)))) else W1 in
-    set_delayed (set_active W2 (deln (f_gen f) (w_active W2))) (deln (f_gen f) (w_delayed W2))
+    let W1 := svc_remove (fold_left (leg_unit_stop cfg) (f_units f) W) f in
+    set_delayed (set_active W1 (deln (f_gen f) (w_active W1))) (deln (f_gen f) (w_delayed W1))
   else W.
 
 (* -- new subsystem: DecoratorManager.start / stop ------------------------------------------------ *)
@@ -235,13 +278,41 @@ Definition dec_unit_start (W : world) (u : unit_) : world :=
   set_running (led_log W (dec_start u (w_led W))) (addn (u_id u) (w_running W)).
 Definition dec_unit_stop (cfg : deviations) (W : world) (u : unit_) : world :=
   set_running (led_log W (dec_stop cfg u (w_led W))) (deln (u_id u) (w_running W)).
-Definition dm_start (W : world) (f : func) : world :=
-  let W1 := fold_left dec_unit_start (f_units f) (set_delayed W (deln (f_gen f) (w_delayed W))) in
-  if f_svc f then set_led W1 (set_svc (w_led W1) (addn (f_gen f) (l_svc (w_led W1)))) else W1.
+Definition start_if_idle (W : world) (u : unit_) : world := if memn (u_id u) (w_running W) then W else dec_unit_start W u.
+(* Decorator.stop of a decorator that was never started fails or does nothing: no effect on the ledger, no run *)
+Definition stop_if_running (cfg : deviations) (W : world) (u : unit_) : world :=
+  if memn (u_id u) (w_running W) then dec_unit_stop cfg W u else W.
+
+(* DecoratorManager.start up to its only suspension point: the decorators in front of @service are started, the
+   service is registered, then start() awaits State.get_service_params().  A refused registration makes start() stop
+   what it started and leaves the manager INVALID.  Without @service, start() runs to its end. *)
+Definition dm_begin (cfg : deviations) (W : world) (f : func) : world :=
+  let W0 := set_delayed W (deln (f_gen f) (w_delayed W)) in
+  match f_svc f with
+  | None => fold_left dec_unit_start (f_units f) W0
+  | Some _ =>
+      let W1 := fold_left dec_unit_start (firstn (f_pos f) (f_units f)) W0 in
+      if svc_refused W1 f then
+        let W2 := fold_left (dec_unit_stop cfg) (firstn (f_pos f) (f_units f)) W1 in
+        set_active W2 (deln (f_gen f) (w_active W2))
+      else let W2 := svc_register W1 f in set_starting W2 (addn (f_gen f) (w_starting W2))
+  end.
+(* the suspended start() continues: it starts the remaining decorators, unless stop() has emptied the list meanwhile *)
+Definition dm_resume (g : N) (W : world) : world :=
+  match find_func W g with
+  | None => W
+  | Some f =>
+      if memn g (w_starting W) && f_new f then
+        let W1 := set_starting W (deln g (w_starting W)) in
+        (* the loop of start() goes on only while the manager is RUNNING (stop() empties the list it iterates) *)
+        if memn g (w_active W) && negb (memn g (w_delayed W)) then fold_left start_if_idle (f_units f) W1 else W1
+      else W
+  end.
+Definition resume_all (W : world) : world := fold_left (fun W g => dm_resume g W) (w_starting W) W.
 (* stop of a RUNNING manager (status check is done by the callers) *)
 Definition dm_stop (cfg : deviations) (W : world) (f : func) : world :=
-  let W1 := fold_left (dec_unit_stop cfg) (f_units f) W in
-  let W2 := if f_svc f then set_led W1 (set_svc (w_led W1) (deln (f_gen f) (l_svc (w_led W1)))) else W1 in
+  let W1 := fold_left (stop_if_running cfg) (f_units f) W in
+  let W2 := if memn (f_gen f) (l_svc (w_led W1)) then svc_remove W1 f else W1 in
   set_active W2 (deln (f_gen f) (w_active W2)).
 (* a VALIDATED manager that will never be started (removed from dms / dms_delay_start) *)
 Definition dm_discard (W : world) (f : func) : world :=
@@ -261,13 +332,13 @@ Definition ctx_stop (cfg : deviations) (c : N) (W : world) : world :=
   set_auto W1 (deln c (w_auto W1)).
 
 (* GlobalContext.start (with set_auto_start(True) as start_global_contexts / the Jupyter kernel do) *)
-Definition ctx_start_func (W : world) (f : func) : world :=
+Definition ctx_start_func (cfg : deviations) (W : world) (f : func) : world :=
   if memn (f_gen f) (w_active W) && memn (f_gen f) (w_delayed W) then
-    if f_new f then dm_start W f
+    if f_new f then dm_begin cfg W f
     else leg_func_start (set_delayed W (deln (f_gen f) (w_delayed W))) f
   else W.
-Definition ctx_start (c : N) (W : world) : world :=
-  let W1 := fold_left (fun W f => if N.eqb (f_ctx f) c then ctx_start_func W f else W) (w_funcs W) W in
+Definition ctx_start (cfg : deviations) (c : N) (W : world) : world :=
+  let W1 := fold_left (fun W f => if N.eqb (f_ctx f) c then ctx_start_func cfg W f else W) (w_funcs W) W in
   set_auto W1 (addn c (w_auto W1)).
 
 (* -- definition of a decorated function ---------------------------------------------------------- *)
@@ -276,7 +347,8 @@ Record fspec := {
   s_states : list (list ident);   (* one ident list per @state_trigger *)
   s_events : list N;              (* one event type per @event_trigger *)
   s_times : list tspec;           (* one per @time_trigger *)
-  s_svc : bool
+  s_svc : option N;               (* @service name *)
+  s_pos : nat                     (* position of @service among the trigger decorators (new subsystem start order) *)
 }.
 Definition mk_unit (id gen : N) (st : option (list ident)) (ev : option N) (tm : option tspec) : unit_ :=
   {| u_id := id; u_gen := gen; u_state := st; u_event := ev;
@@ -299,17 +371,21 @@ Definition new_protos (s : fspec) : list proto :=
   map (fun x => (Some x, None, None)) (s_states s) ++ map (fun x => (None, Some x, None)) (s_events s) ++
   map (fun x => (None, None, Some x)) (s_times s).
 
-Definition define (c : N) (newsys : bool) (s : fspec) (W : world) : world :=
+Definition define (cfg : deviations) (c : N) (newsys : bool) (s : fspec) (W : world) : world :=
   let gen := w_next W in
   let units := number_units gen (gen + 1) (if newsys then new_protos s else legacy_protos s) in
-  let f := {| f_gen := gen; f_ctx := c; f_new := newsys; f_units := units; f_svc := s_svc s |} in
-  let L := w_led W in
-  (* legacy registers the service inside trigger_init; the new @service decorator registers in start() *)
-  let L1 := if s_svc s && negb newsys then set_svc L (addn gen (l_svc L)) else L in
-  let W1 := {| w_led := L1; w_funcs := w_funcs W ++ [f]; w_active := w_active W ++ [gen]; w_delayed := w_delayed W ++ [gen];
-               w_pending := w_pending W; w_zombie := w_zombie W; w_running := w_running W; w_auto := w_auto W;
-               w_next := gen + 1 + N.of_nat (length units); w_log := w_log W |} in
-  if memn c (w_auto W) then ctx_start_func W1 f else W1.
+  let f := {| f_gen := gen; f_ctx := c; f_new := newsys; f_units := units; f_svc := s_svc s; f_pos := s_pos s |} in
+  let nxt := gen + 1 + N.of_nat (length units) in
+  (* the function object exists in any case *)
+  let Wf := {| w_led := w_led W; w_funcs := w_funcs W ++ [f]; w_active := w_active W; w_delayed := w_delayed W;
+               w_pending := w_pending W; w_zombie := w_zombie W; w_running := w_running W; w_starting := w_starting W;
+               w_hdl := w_hdl W; w_auto := w_auto W; w_next := nxt; w_log := w_log W |} in
+  if negb newsys && svc_refused Wf f then Wf      (* legacy trigger_init raised ValueError: nothing registered, nothing started *)
+  else
+    (* legacy registers the service inside trigger_init; the new @service decorator registers in start() *)
+    let Ws := if newsys then Wf else svc_register Wf f in
+    let W1 := set_delayed (set_active Ws (w_active Ws ++ [gen])) (w_delayed Ws ++ [gen]) in
+    if memn c (w_auto W) then ctx_start_func cfg W1 f else W1.
 
 (* -- "the last reference to the function object was dropped" (input event) ------------------------ *)
 Definition dropped (cfg : deviations) (g : N) (W : world) : world :=
@@ -336,7 +412,8 @@ Definition prologue (u : N) (W : world) : world :=
     else W
   end.
 Definition do_reap (W : world) : world := set_led W (reap (w_led W)).
-(* run the event loop to quiescence: tasks created earlier run first, then the reaper *)
+(* run the event loop to quiescence: tasks created earlier run first, then the reaper (suspended manager starts
+   are resumed by their own operation: the awaited call may take arbitrarily long) *)
 Definition settle (W : world) : world :=
   do_reap (fold_left (fun W u => prologue u W) (w_pending W ++ w_zombie W) W).
 
@@ -358,14 +435,14 @@ Definition occ_tick (W : world) : list run :=
                      | Some u => if u_periodic u && negb (memn t (w_pending W)) && negb (memn t (w_zombie W))
                                  then [{| r_gen := u_gen u; r_kind := RTime; r_unit := t |}] else []
                      | None => [] end) (l_tasks (w_led W)).
-Definition occ_call (g : N) (W : world) : list run :=
-  if memn g (l_svc (w_led W)) then [{| r_gen := g; r_kind := RService; r_unit := g |}] else [].
+Definition occ_call (cfg : deviations) (n : N) (W : world) : list run :=
+  match handler cfg W n with Some g => [{| r_gen := g; r_kind := RService; r_unit := g |}] | None => [] end.
 Definition add_log (W : world) (rs : list run) : world := led_log W (w_led W, rs).
 
 (* -- unload of the integration ------------------------------------------------------------------ *)
 Definition all_ctxs (W : world) : list N := map f_ctx (w_funcs W).
 Definition unload (cfg : deviations) (W : world) : world :=
-  settle (fold_left (fun W c => ctx_stop cfg c W) (all_ctxs W) W).
+  settle (resume_all (fold_left (fun W c => ctx_stop cfg c W) (all_ctxs W) W)).
 
 (* ---------------------------------------------------------------------------------------------- *)
 Inductive op :=
@@ -376,25 +453,29 @@ Inductive op :=
   | OCtxStop (c : N)                              (* GlobalContext.stop / GlobalContextMgr.delete *)
   | OUnload                                       (* unload_scripts(unload_all=True) + reaper/waiter shutdown *)
   | OPrologue (u : N)                             (* scheduler: legacy trigger task u runs up to its first wait *)
+  | OResume (g : N)                               (* scheduler: the suspended DecoratorManager.start of g continues *)
+  | OResumeAll                                    (* scheduler: every suspended start continues *)
   | OReap                                         (* scheduler: the reaper cancels what is queued *)
-  | OSettle                                       (* scheduler: run to quiescence *)
-  | OState (e : N) | OEvent (ev : N) | OTick | OCall (g : N).   (* occurrences *)
+  | OSettle                                       (* scheduler: run to quiescence (tasks, reaper) *)
+  | OState (e : N) | OEvent (ev : N) | OTick | OCall (n : N).   (* occurrences; OCall n = call of service n *)
 
 Definition step (cfg : deviations) (W : world) (o : op) : world :=
   match o with
-  | ODefine c n s => define c n s W
+  | ODefine c n s => define cfg c n s W
   | ODropped g => dropped cfg g W
   | OCtxAuto c b => set_auto W (if b then addn c (w_auto W) else deln c (w_auto W))
-  | OCtxStart c => ctx_start c W
+  | OCtxStart c => ctx_start cfg c W
   | OCtxStop c => ctx_stop cfg c W
   | OUnload => unload cfg W
   | OPrologue u => prologue u W
+  | OResume g => dm_resume g W
+  | OResumeAll => resume_all W
   | OReap => do_reap W
   | OSettle => settle W
   | OState e => add_log W (occ_state e W)
   | OEvent ev => add_log W (occ_event ev W)
   | OTick => add_log W (occ_tick W)
-  | OCall g => add_log W (occ_call g W)
+  | OCall n => add_log W (occ_call cfg n W)
   end.
 Definition run_ops (cfg : deviations) (ops : list op) (W : world) : world := fold_left (step cfg) ops W.
 
